@@ -17,6 +17,7 @@ import EasyMl.Lemmas.MatrixEq
 import EasyMl.Lemmas.InteropNames
 import EasyMl.Lemmas.MatrixViewEval
 import EasyMl.Lemmas.PartViews
+import EasyMl.Lemmas.ViewIterators
 
 namespace EasyMl.C12
 open EasyMl EasyMl.Spec EasyMl.Fallible EasyMl.MatrixView
@@ -138,6 +139,62 @@ example : (MExpr.swapped (MExpr.leaf 2 3)).size = (3, 2) ∧
     (MExpr.swapped (MExpr.leaf 2 3)).layout = .columnMajor ∧
     (MExpr.swapped (MExpr.leaf 2 3)).Buildable = true := by
   refine ⟨by decide, by decide, by decide, by decide⟩
+
+/-! ## Iterators over view stacks (the bridge to C09) -/
+
+/-- **Every view stack is a well-formed iterator source.**  In the vocabulary of C09's iterator
+    model (`Iter.MSource`: a size and the cell a position resolves to), a composition `e` — over a
+    matrix, a column-major source or a part, through ranges, reversals, maps, tensor round trips
+    and transpositions — resolves every position inside its size to a cell and no two positions
+    to the same cell.  This is the hypothesis (`MSource.WellFormed`) of C09's theorems about the
+    row-major, column-major, row, column and diagonal iterators in all their flavours
+    (`matrix_source_faithful`, `mut_items_distinct`, `copy_kth`, …), which therefore hold over
+    every such stack. -/
+theorem view_stack_is_iterator_source (e : MExpr) (hle : e.LeavesOk) :
+    e.msource.WellFormed ∧ e.msource.rows = e.size.1 ∧ e.msource.columns = e.size.2 ∧
+      ∀ p, e.msource.cell p = e.cell p.1 p.2 :=
+  ⟨e.msource_wellFormed hle, rfl, rfl, fun _ => rfl⟩
+
+/-- **Row-major and column-major iteration enumerate `cell`.**  For every number `n` of calls
+    — also past the end — the reference flavour of `row_major_iter` over a view stack yields, at
+    call `k`, the cell designated by index `(k / columns, k % columns)` while
+    `k < rows·columns` and `None` afterwards; `column_major_iter` yields that of
+    `(k % rows, k / rows)`; no call panics, on empty views nothing is yielded; and every cell
+    yielded is a real one (`Some`, never an access outside the source). -/
+theorem view_iteration_enumerates_cells (e : MExpr) (hle : e.LeavesOk) (n : Nat) :
+    Iter.collect (Iter.refNext Iter.rowMajorNext e.msource.cell) n (Iter.MatIter.new e.size.1 e.size.2) =
+      .ok ((List.range n).map (fun k =>
+              if k < e.size.1 * e.size.2 then some (e.cell (k / e.size.2) (k % e.size.2)) else none),
+           Iter.rowMajorState e.size.1 e.size.2 n) ∧
+    Iter.collect (Iter.refNext Iter.colMajorNext e.msource.cell) n (Iter.MatIter.new e.size.1 e.size.2) =
+      .ok ((List.range n).map (fun k =>
+              if k < e.size.1 * e.size.2 then some (e.cell (k % e.size.1) (k / e.size.1)) else none),
+           Iter.colMajorState e.size.1 e.size.2 n) ∧
+    (∀ k, k < e.size.1 * e.size.2 →
+      (e.cell (k / e.size.2) (k % e.size.2)).isSome = true ∧
+      (e.cell (k % e.size.1) (k / e.size.1)).isSome = true) := by
+  refine ⟨rowMajor_ref_collect e n, colMajor_ref_collect e n, ?_⟩
+  intro k hk
+  have hc : 0 < e.size.2 := by
+    rcases Nat.eq_zero_or_pos e.size.2 with h | h
+    · rw [h] at hk; simp at hk
+    · exact h
+  have hr : 0 < e.size.1 := by
+    rcases Nat.eq_zero_or_pos e.size.1 with h | h
+    · rw [h] at hk; simp at hk
+    · exact h
+  constructor
+  · apply e.cell_some
+    exact ⟨(Nat.div_lt_iff_lt_mul hc).mpr hk, Nat.mod_lt _ hc⟩
+  · apply e.cell_some
+    exact ⟨Nat.mod_lt _ hr, (Nat.div_lt_iff_lt_mul hr).mpr (by rw [Nat.mul_comm]; exact hk)⟩
+
+/-- Non-vacuity: three calls of the row-major reference iterator over the transposed 1×2 leaf
+    (a 2×1 view): cells 0 and 1, then `None`. -/
+example : Iter.collect (Iter.refNext Iter.rowMajorNext (MExpr.swapped (MExpr.leaf 1 2)).msource.cell) 3
+      (Iter.MatIter.new 2 1) =
+    .ok ([some (some 0), some (some 1), none], Iter.rowMajorState 2 1 3) := by
+  rfl
 
 /-! ## The wrappers are positional: dimension names never matter -/
 
